@@ -103,9 +103,15 @@ def one(subs: str, rng: Any, per_leaf: bool, ell: tuple[int, ...] = ELL, ell_blo
         return
     LOG.count('C14.strings', 'valid-einsum')
     stokes_leaves = (not per_leaf) and len(subs) % 5 == 0
+    dt2: Any = dt
+    if per_leaf and bdt is dt and sum(map(ord, subs)) % 3 == 1:
+        # leaves of different dtypes in one pytree, blocks no wider than the narrowest: each leaf keeps its own precision
+        bdt, dt, dt2 = (np.float32, np.float32, np.float64) if gen.X64 else (np.float16, np.float16, np.float32)
+        LOG.count('C14.dtypes', f'leaves={np.dtype(dt).name}+{np.dtype(dt2).name}')
+        bdt = dt
     if per_leaf:
         blocks: Any = [jnp.asarray(nb, dtype=bdt), jnp.asarray(nb[::-1].copy() if nb.ndim else nb, dtype=bdt)]
-        s: Any = [gen.S(xshape, dt), gen.S(xshape, dt)]
+        s: Any = [gen.S(xshape, dt), gen.S(xshape, dt2)]
     elif stokes_leaves:
         # one shared block array applied to every component of a Stokes container
         from furax.landscapes import StokesQUPyTree
@@ -117,7 +123,7 @@ def one(subs: str, rng: Any, per_leaf: bool, ell: tuple[int, ...] = ELL, ell_blo
     mon = 'C14.construct'
     try:
         op = DenseBlockDiagonalOperator(blocks, s, subs)
-        x = jax.tree.map(lambda l: jnp.asarray(nx, dtype=dt), s)
+        x = jax.tree.map(lambda l: jnp.asarray(nx, dtype=l.dtype), s)
         y = op.mv(x)                                      # monitored: reference model numpy.einsum
         op(x)                                             # monitored: op(x) is op.mv(x)
         op(jax.tree.map(lambda l: l.astype(jnp.complex64), x))   # also for data wider than the declared structure
